@@ -5,8 +5,9 @@ CONSTANTS
   HeaderInTask = TRUE
   Limit = 1
   Timeout = 2
-  MaxNow = 3
+  MaxNow = 2
 SPECIFICATION Spec
 INVARIANTS Safety LoopNeverWaitsOnClient
 PROPERTIES C16 C17 StopCancelsNothing
+CONSTRAINT SortedKinds
 CHECK_DEADLOCK FALSE
